@@ -222,20 +222,34 @@ def evaluate(chk, v, suffixes):
             a = br[0]["args"]
             twoN = sym.mul(I(2), N)
             want_barb = ("call", "modSwitchFromTorus32", (P(x, "b"), twoN))
-            bara_st = [p for p in stores if p["loops"] and p["val"][0] == "call" and p["val"][1] == "modSwitchFromTorus32"]
+            bara_st = [p for p in stores if p["val"][0] == "call" and p["val"][1] == "modSwitchFromTorus32" and p["lv"][0] == "idx" and p["lv"][1] == a[4]]
             problems = []
             if a[3] != want_barb:
                 problems.append("barb is %s, expected modSwitchFromTorus32(x->b, 2N)" % sym.show(a[3]))
-            if len(bara_st) != 1:
-                problems.append("%d rounded-mask statements" % len(bara_st))
+            if not bara_st:
+                problems.append("no rounded-mask statement bara[i] = modSwitchFromTorus32(x->a[i], 2N)")
             else:
-                s = bara_st[0]
-                lp = s["loops"][0]
-                i = lp["var"]
-                if (lp["lo"], lp["cmp"], lp["hi"]) != (ZERO, "<", n) or s["lv"] != sym.idx(a[4], i) or \
-                        s["val"] != ("call", "modSwitchFromTorus32", (sym.idx(P(x, "a"), i), twoN)):
-                    problems.append("mask statement is '%s' over [%s,%s); expected bara[i] = modSwitchFromTorus32(x->a[i], 2N) over [0,n)" % (
-                        summ.show_piece(s)[:120], sym.show(lp["lo"]), sym.show(lp["hi"])))
+                # every statement rounds the mask coefficient of its own position; together they visit [0, n) exactly once
+                from sa import coverage
+                terms = []
+                for s in bara_st:
+                    pos = s["lv"][2]
+                    if s["op"] != "=" or s["val"] != ("call", "modSwitchFromTorus32", (sym.idx(P(x, "a"), pos), twoN)):
+                        problems.append("mask statement '%s': expected bara[i] = modSwitchFromTorus32(x->a[i], 2N)" % summ.show_piece(s)[:140])
+                        continue
+                    if len(s["loops"]) > 1:
+                        chk.broken("%s: rounded-mask statement at line %s is in a loop nest" % (f.name, s["line"]))
+                    if s["loops"]:
+                        terms.append((s["loops"][0], pos, 1, s["guards"]))
+                    else:
+                        u = sym.sym("u@%s" % s["line"])
+                        terms.append(({"var": u, "lo": pos, "cmp": "<", "hi": sym.add(pos, I(1)), "step": I(1), "l": s["line"]}, u, 1, s["guards"]))
+                if not problems:
+                    stc, detc = coverage.cover_1d(terms, n)
+                    if stc == "unknown":
+                        chk.broken("%s: rounded-mask statements: %s" % (f.name, detc))
+                    if stc == "refuted":
+                        problems.append("the rounded-mask statements do not fill bara[0..n) exactly once: %s" % detc)
             if a[5] != n:
                 problems.append("rotation count %s is not n" % sym.show(a[5]))
             chk.require(not problems, "R2", "%s: b and every a[i], i < n, are rounded to modulus 2N" % f.name, where=f.where,
@@ -407,6 +421,16 @@ def check_input_dependence(chk, v, f, ps, xname, consumer):
             return
         if u[0] == "call" and u[1] == "modSwitchFromTorus32":
             return
+        if u[0] == "addr":
+            # &p[i] computes an address: the subscripts are evaluated, the element is not read
+            lv_ = u[1]
+            while isinstance(lv_, tuple) and lv_ and lv_[0] in ("idx", "fld"):
+                if lv_[0] == "idx":
+                    go(lv_[2], line)
+                lv_ = lv_[1]
+            return
+        if u == sym.arrow(X, "a"):
+            return          # the mask pointer itself (hoisted into a local), not a coefficient
         if sym.root_of(u) == X and (u[0] == "idx" or (u[0] == "fld" and u[2] == "b")):
             bad.append((line, sym.show(u)))
             return
